@@ -135,6 +135,11 @@ def text_positions(d, sql):
             k = ('const', repr(int(src)))
         elif ty == 'QUOTE_STRING' and "\\" not in src and "''" not in src[1:-1]:
             k = ('const', repr(src[1:-1]))
+        if ty == 'DQUOTE_STRING' and len(src) > 1:
+            # "x" is a name or a string constant depending on where it stands: its spelling is ambiguous for both
+            for kk in (('id', src[1:-1]), ('const', repr(src[1:-1]))):
+                out.pop(kk, None)
+                dup.add(kk)
         if k is None:
             continue
         if k in out or k in dup:
@@ -271,6 +276,8 @@ def judge(case, col):
             if len(rs) != 1:
                 continue
             r = next(iter(rs))
+            if r == 'open':
+                continue        # visiting a node in an open position is neither required nor forbidden: its flags are not judged
             if bool(it) != (r == 'table'):
                 rec('flag', slot_of[id(node)], f'is_table={it} for {type(node).__name__} in role {r}',
                     ['is_table', 'role:' + r])
